@@ -47,6 +47,8 @@ def strategy(tier):
             # some conditions and guards look at the live configuration through active()
             if draw(st.floats(0, 1)) < 0.3:
                 o['c_active'] = draw(st.sampled_from(names))
+            if draw(st.floats(0, 1)) < 0.3:
+                o['c_time'] = True       # its conditions mention after() / idle()
             if 'id' in o and 'tguard' not in o and draw(st.floats(0, 1)) < 0.3:
                 o['aguard'] = draw(st.sampled_from(names))
             # ... and so does some of the entry / exit / action code
